@@ -61,7 +61,110 @@ def isinstance_classes(repo, m, test) -> Optional[Set[str]]:
     return out
 
 
+def check_differential(ctx, rule="C08.X"):
+    """NV transpilation decided by differential execution: programs in the vanilla flavour are parsed by the repository's parser,
+    run by the repository's Executor (quantum hooks recorded), transpiled by NVSubroutineTranspiler.transpile() and run again.  Both
+    runs must end with the same classical registers and program counter behaviour (the same markers were executed) and must have
+    applied the same operator to the qubits (the recorded gates multiplied out, up to a global phase), with the same initialisations
+    and measurements in between.
+
+    Programs: every branch class (jmp, bez, bnz, beq, bne, blt, bge) taken and not taken, jumping forward over a gate, to the very end
+    of the subroutine and backward (a counted loop); around the jump and at its target gates whose NV expansions have different lengths
+    (h, x, t, s, k, rot_z, cnot / cphase between electron and carbon in both directions and between two carbons); a marker register is
+    increased by a different amount in every basic block, so a target that lands one instruction early or late is seen."""
+    from .. import session as S
+    branches = {"jmp": ("jmp {t}", [(0, 0)]), "bez": ("bez R0 {t}", [(0, 0), (2, 0)]), "bnz": ("bnz R0 {t}", [(0, 0), (2, 0)]),
+                "beq": ("beq R0 R1 {t}", [(1, 1), (1, 2)]), "bne": ("bne R0 R1 {t}", [(1, 1), (1, 2)]),
+                "blt": ("blt R0 R1 {t}", [(1, 2), (2, 1), (1, 1)]), "bge": ("bge R0 R1 {t}", [(1, 2), (2, 1), (1, 1)])}
+    gates = ["h Q0", "x Q1", "t Q2", "cnot Q0 Q1", "cnot Q1 Q0", "cnot Q1 Q2", "cphase Q2 Q0", "rot_z Q1 3 3", "k Q0\ns Q1", "cphase Q1 Q2"]
+    head = "# NETQASM 1.0\n# APPID 0\nset R0 {a}\nset R1 {b}\nset R5 0\nset R6 1\nset R7 10\nset R8 100\nset R9 0\nset R10 3\n" + \
+           "".join(f"set Q{k} {k}\nqalloc Q{k}\ninit Q{k}\n" for k in range(3))
+    programs = []
+    gi = 0
+    for mn, (form, values) in branches.items():
+        for a_, b_ in values:
+            for shape in ("forward", "to-the-end", "backward"):
+                g = [gates[(gi + k) % len(gates)] for k in range(4)]
+                gi += 1
+                if shape == "forward":
+                    body = f"{g[0]}\n{form.format(t='TARGET')}\n{g[1]}\nadd R5 R5 R6\nTARGET:\n{g[2]}\nadd R5 R5 R7\n{g[3]}\nadd R5 R5 R8\n"
+                elif shape == "to-the-end":
+                    body = f"{g[0]}\nadd R5 R5 R6\n{form.format(t='END')}\n{g[1]}\nadd R5 R5 R7\n{g[2]}\nEND:\n"
+                else:
+                    # a loop that runs three times, left by the branch under test when it is taken, else by the counter
+                    body = f"LOOP:\n{g[0]}\nadd R5 R5 R6\nadd R9 R9 R6\nbeq R9 R10 OUT\n{form.format(t='OUT') if mn != 'jmp' else 'jmp LOOP'}\n{g[1]}\nadd R5 R5 R7\njmp LOOP\nOUT:\n{g[2]}\nadd R5 R5 R8\n"
+                programs.append((f"{mn} {shape} R0={a_} R1={b_}", [head.format(a=a_, b=b_) + body]))
+    hdr = "# NETQASM 1.0\n# APPID 0\n"
+    prelude = head.format(a=0, b=1)
+    # a target that is the very first instruction of the subroutine (registers and qubits prepared by an earlier subroutine of the application)
+    for form in ("bne R9 R10 TOP", "blt R9 R10 TOP"):
+        programs.append((f"backward to instruction 0 ({form.split()[0]})", [prelude, hdr + f"TOP:\nadd R9 R9 R6\nset Q0 0\nh Q0\nset Q1 1\ncnot Q0 Q1\nadd R5 R5 R7\n{form}\nset Q2 2\nx Q2\nadd R5 R5 R8\n"]))
+    programs.append(("jmp over a block to instruction 0 of nothing: first instruction is a jump", [prelude, hdr + "jmp SKIP\nset Q0 0\nh Q0\nadd R5 R5 R6\nSKIP:\nset Q1 1\nx Q1\nadd R5 R5 R7\n"]))
+    # a qubit register set on one path only, and set again (to the value of the other path) after the join
+    for r0 in (0, 2):
+        programs.append((f"register value differs per path at a join (R0={r0})", [head.format(a=r0, b=1) + "set Q0 1\nbez R0 JOIN\nset Q0 0\nh Q0\nadd R5 R5 R6\nJOIN:\nset Q0 0\nx Q0\nset Q1 1\nset Q1 1\nt Q1\nadd R5 R5 R7\n"]))
+    # rotations over a zero angle in front of jump targets
+    for r0 in (0, 2):
+        programs.append((f"zero-angle rotations before a target (R0={r0})", [head.format(a=r0, b=1) + "rot_x Q0 0 4\nrot_z Q1 0 0\nbez R0 AFTER\nrot_y Q0 0 2\nh Q0\nadd R5 R5 R6\nAFTER:\nrot_x Q1 0 1\nx Q1\nadd R5 R5 R7\nbnz R0 END\nt Q2\nadd R5 R5 R8\nEND:\n"]))
+    # the whole classical register file in use, nothing jumps to the end
+    programs.append(("every C register in use", [head.format(a=1, b=1) + "".join(f"set C{k} {k + 40}\n" for k in range(16)) + "h Q0\ncnot Q0 Q1\nadd R5 R5 R6\n"]))
+    programs.append(("the constant of the no-op in the program", [head.format(a=0, b=1) + "bez R0 L1\nh Q0\nL1:\nset C15 1337\nset C14 1337\nx Q1\nbez R0 L2\nadd R5 R5 R6\nL2:\nt Q2\nadd R5 R5 R7\n"]))
+    bad = {}
+    n = 0
+    seen_branches = set()
+    try:
+        for label, texts in programs:
+            n += 1
+            w1 = S.ExecutorWorld(ctx, S.scenario(max_steps=400000))
+            w1.init_app(0, 3)
+            for text in texts:
+                r1 = w1.run(w1.parse(text))
+                if r1[0] != "ok":
+                    raise AnalysisError(f"the checker's program `{label}` does not run on the executor in the vanilla flavour: {r1}")
+            w2 = S.ExecutorWorld(ctx, S.scenario(max_steps=400000))
+            w2.init_app(0, 3)
+            failed = False
+            for text in texts:
+                t_ = S.nv_transpile(w2, w2.parse(text))
+                if t_[0] != "ok":
+                    bad.setdefault("transpile:accepts-every-program", f"`{label}`: transpile() {t_}")
+                    failed = True
+                    break
+                r2 = w2.run(t_[1])
+                if r2[0] != "ok":
+                    bad.setdefault("transpiled-program:runs", f"`{label}`: the transpiled program {r2} on the executor; the original runs")
+                    failed = True
+                    break
+            if failed:
+                continue
+            seen_branches.add(label.split()[0])
+            regs1 = {k_: v_ for k_, v_ in w1.registers().items() if k_[0] in "RCM"}
+            regs2 = {k_: v_ for k_, v_ in w2.registers().items() if k_[0] in "RCM" and k_ in regs1}
+            if regs1 != regs2:
+                diff = {k_: (regs1.get(k_), regs2.get(k_)) for k_ in regs1 if regs1.get(k_) != regs2.get(k_)}
+                bad.setdefault("jump-targets:same-classical-outcome", f"`{label}`: registers after the original / the transpiled program differ: {diff} "
+                                                                     "(R5 counts the basic blocks that ran: a jump of the transpiled program lands somewhere else)")
+                continue
+            why = S.same_behaviour(S.trace_unitaries(w1.trace, 3), S.trace_unitaries(w2.trace, 3))
+            if why is not None:
+                bad.setdefault("gates:same-operator-on-the-executed-path", f"`{label}`: {why}; original gates {[t[:2] for t in w1.trace]}, transpiled {[(t[0], t[1], round(t[2], 4) if t[2] is not None else None) for t in w2.trace]}")
+    except AnalysisError as ex_:
+        ctx.error(rule, f"differential execution cannot be carried out: {ex_}")
+        return
+    ctx.anchor(rule, "programs executed before and after NV transpilation", n, 40)
+    ctx.anchor(rule, "branch classes exercised", len(seen_branches), 7)
+    repo = ctx.repo
+    nvt = repo.get_class("netqasm.sdk.transpile", "NVSubroutineTranspiler")
+    loc = nvt.loc(nvt.methods["transpile"]) if "transpile" in nvt.methods else None
+    for key, text in (("transpile:accepts-every-program", "the NV transpiler refuses a vanilla program"),
+                      ("transpiled-program:runs", "a transpiled program faults on the executor"),
+                      ("jump-targets:same-classical-outcome", "a transpiled program takes another path than the original"),
+                      ("gates:same-operator-on-the-executed-path", "the gates executed by the transpiled program are not those of the original")):
+        ctx.check(rule, key, key not in bad, f"{text}: {bad.get(key)}", loc, sample={"programs": n})
+
+
 def run(ctx):
+    check_differential(ctx)
     repo, ev = ctx.repo, ctx.ev
     m = repo.module(TR)
     nvt = repo.get_class(TR, "NVSubroutineTranspiler")
@@ -118,8 +221,9 @@ def run(ctx):
         return None, None
     nv_if, nv_set = jump_if(tp)
     re_if, re_set = jump_if(rt)
-    if nv_if is None or re_if is None:
-        raise AnalysisError("jump-retargeting isinstance test not found in a transpiler")
+    if re_if is None:
+        raise AnalysisError("jump-scanning isinstance test not found in the REIDS transpiler")
+    # (the NV transpiler's retargeting is decided by differential execution, C08.X: which classes it tests, and how, is not read)
     table = c04.handler_table(ctx)
     arms = ctx._c04_arms
     ex_set = set()
@@ -140,99 +244,13 @@ def run(ctx):
                 out.add(c.name)
         return out
     ref = closure(with_line)
-    for label, s in (("NV transpiler retargets", nv_set), ("REIDS transpiler scans", re_set), ("executor branch handler", ex_set)):
+    for label, s in (("REIDS transpiler scans", re_set), ("executor branch handler", ex_set)):
         got = closure(s)
         ctx.check("C08.J", f"jump-classes:{label}", got == ref,
                   f"{label} {sorted(got)} but the core classes with a jump target are {sorted(ref)}: "
                   f"{'missing ' + str(sorted(ref - got)) if ref - got else ''}{' extra ' + str(sorted(got - ref)) if got - ref else ''} — a jump of a missing class keeps its old (now wrong) target", repo.loc(m, nv_if),
                   sample={"set": label, "classes": sorted(got)})
     ctx.anchor("C08.J", "core instruction classes with a jump target", len(ref), 7)
-    # ---- C08.I
-    loops = [st for st in tp.body if isinstance(st, ast.For)]
-    if len(loops) < 2:
-        raise AnalysisError("NV transpile: rewrite loop and retarget loop not found")
-    rw = loops[0]
-    it = rw.iter
-    ok_iter = isinstance(it, ast.Call) and dotted(it.func) == "enumerate" and len(it.args) == 1 and A.norm(it.args[0]) == "self._subroutine.instructions" and isinstance(rw.target, ast.Tuple)
-    ctx.check("C08.I", "rewrite-loop:enumerates-all-instructions", ok_iter, f"the rewrite loop iterates `{src(it)}`; expected enumerate(self._subroutine.instructions)", repo.loc(m, rw))
-    ivar = rw.target.elts[0].id if ok_iter else "i"
-    rec_idx = None
-    first_append = None
-    early = None
-    for k, st in enumerate(rw.body):
-        if isinstance(st, ast.Assign) and isinstance(st.targets[0], ast.Subscript) and A.norm(st.targets[0]) == f"index_changes[{ivar}]":
-            if rec_idx is None:
-                rec_idx = k
-                rec_val = A.norm(st.value)
-        appends = [n for n in ast.walk(st) if isinstance(n, ast.AugAssign) and A.norm(n.target) == "new_commands"] + \
-            [n for n in ast.walk(st) if isinstance(n, ast.Call) and A.norm(n.func) in ("new_commands.append", "new_commands.extend")]
-        if appends and first_append is None:
-            first_append = k
-        # continue/break/return belonging to the outer loop
-        for n in A.walk_no_nested(st):
-            if isinstance(n, (ast.Continue, ast.Break, ast.Return)):
-                # inside an inner loop?
-                inner = any(isinstance(p, (ast.For, ast.While)) and any(x is n for x in ast.walk(p)) for p in ast.walk(st) if p is not st or isinstance(st, (ast.For, ast.While)))
-                if not inner and early is None:
-                    early = k
-    ok = rec_idx is not None and first_append is not None and rec_idx < first_append and early is None and rec_val == "len(new_commands)"
-    ctx.check("C08.I", "rewrite-loop:index-recorded-before-expansion", ok,
-              f"index_changes[{ivar}] is recorded at statement {rec_idx} (value `{rec_val if rec_idx is not None else None}`), the expansion is appended at statement {first_append}, "
-              f"an early exit (continue/break/return) of the iteration at statement {early}; the map must be recorded unconditionally as len(new_commands) before the expansion is appended, "
-              f"and no iteration may leave the loop body early (the instruction would be neither kept nor expanded)", repo.loc(m, rw),
-              sample={"record_at": rec_idx, "append_at": first_append, "early_exit": early})
-    # every instruction is appended exactly once: if/elif/else chain where every arm appends
-    def grows(n):
-        # new_commands += X   |   new_commands.append(x)   |   new_commands.extend(X)
-        return (isinstance(n, ast.AugAssign) and A.norm(n.target) == "new_commands") or \
-            (isinstance(n, ast.Expr) and isinstance(n.value, ast.Call) and A.norm(n.value.func) in ("new_commands.append", "new_commands.extend"))
-
-    def keeps(n, var):
-        return (isinstance(n, ast.AugAssign) and A.norm(n.value) == f"[{var}]") or \
-            (isinstance(n, ast.Expr) and isinstance(n.value, ast.Call) and A.norm(n.value.func) == "new_commands.append" and len(n.value.args) == 1 and A.norm(n.value.args[0]) == var)
-
-    chain = [st for st in rw.body if isinstance(st, ast.If) and any(grows(n) for n in ast.walk(st))]
-    ok = False
-    if len(chain) == 1:
-        cur = chain[0]
-        ok = True
-        while True:
-            ok = ok and sum(1 for n in cur.body if grows(n)) == 1
-            if len(cur.orelse) == 1 and isinstance(cur.orelse[0], ast.If):
-                cur = cur.orelse[0]
-                continue
-            ok = ok and sum(1 for n in cur.orelse if grows(n)) == 1
-            # the else arm keeps the instruction itself
-            ok = ok and any(keeps(n, rw.target.elts[1].id) for n in cur.orelse)
-            break
-    ctx.check("C08.I", "rewrite-loop:every-instruction-kept-or-expanded", ok, "not every arm of the rewrite appends exactly one expansion (non-gate instructions must be kept as they are, in order)", repo.loc(m, rw))
-    # the index map describes new_commands as the rewrite loop built it: afterwards the list may only grow at its end (the no-op)
-    edits = []
-    order_ = {id(x): k for k, top in enumerate(tp.body) for x in ast.walk(top)}
-    rw_k = tp.body.index(rw)
-    later_loops = [k for k, top in enumerate(tp.body) if isinstance(top, ast.For) and k > rw_k]
-    rl_k = later_loops[0] if later_loops else len(tp.body)
-    for st in A.body_nodes(tp):
-        inside_rw = any(st is x for x in ast.walk(rw))
-        if isinstance(st, ast.Assign) and any(A.norm(t_) == "new_commands" for t_ in st.targets):
-            if not (isinstance(st.value, ast.List) and not st.value.elts and order_.get(id(st), 1 << 30) < rw_k):
-                edits.append(src(st)[:80])
-        elif isinstance(st, ast.AugAssign) and A.norm(st.target) == "new_commands":
-            if not (isinstance(st.op, ast.Add) and (inside_rw or order_.get(id(st), -1) > rl_k)):
-                edits.append(src(st)[:80])
-        elif isinstance(st, (ast.Assign, ast.Delete)) and any(isinstance(t_, ast.Subscript) and A.norm(t_.value) == "new_commands" for t_ in (st.targets)):
-            edits.append(src(st)[:80])
-        elif isinstance(st, ast.Call) and isinstance(st.func, ast.Attribute) and A.norm(st.func.value) == "new_commands" and st.func.attr in ("remove", "pop", "insert", "sort", "reverse", "clear", "extend", "append"):
-            if not (st.func.attr in ("append", "extend") and (inside_rw or order_.get(id(st), -1) > rl_k)):
-                edits.append(src(st)[:80])
-    ctx.check("C08.I", "rewrite-result:only-appended-to", not edits,
-              f"the rewritten command list is changed other than by appending expansions in the rewrite loop ({'; '.join(edits)}): the old->new index map was recorded against the list "
-              "as the loop built it, so removing or inserting commands afterwards shifts every later jump target", repo.loc(m, tp), sample={"other_edits": edits})
-    # ---- C08.I / C08.E  (abstract execution, nqsa/circuit.py)
-    # transpile() is executed on small programs with the two gate handlers modelled (a single-qubit gate becomes 2 marker
-    # instructions, a two-qubit gate 3); whatever the method is written as, the stored result must be the in-order concatenation of
-    # kept instructions and expansions, every jump must point at the first command of its old target's expansion, a jump to the
-    # position just past the end must point just past the new end, and a trailing no-op is appended exactly when there is such a jump.
     from .. import circuit as C
     from ..model import EnumMember
     rn = repo.get_class("netqasm.lang.encoding", "RegisterName")
@@ -244,86 +262,6 @@ def run(ctx):
     def reg(name, index):
         return C.Obj(R_, {"name": EnumMember(rn.qualname, name, rmem[name]), "index": index})
 
-    def program(with_end_jump):
-        q0, q1, r1, r2 = reg("Q", 0), reg("Q", 1), reg("R", 1), reg("R", 2)
-        prog = [
-            C.Obj(corem.classes["SetInstruction"], {"reg": q0, "imm": C.Imm(5)}),
-            C.Obj(vanm.classes["GateXInstruction"], {"reg": q0}),
-            C.Obj(corem.classes["BezInstruction"], {"reg": r1, "imm": C.Imm(5)}),
-            C.Obj(vanm.classes["CnotInstruction"], {"reg0": q0, "reg1": q1}),
-            C.Obj(corem.classes["JmpInstruction"], {"imm": C.Imm(7 if with_end_jump else 1)}),
-            C.Obj(vanm.classes["GateHInstruction"], {"reg": q0}),
-            C.Obj(corem.classes["BeqInstruction"], {"reg0": r1, "reg1": r2, "imm": C.Imm(0)}),
-        ]
-        return prog
-
-    res = {"order": True, "targets": True, "end": True, "noop": True, "stored": True}
-    why = {}
-    try:
-        for with_end_jump in (True, False):
-            prog = program(with_end_jump)
-            sc = C.Scenario()
-            expansions = {}
-
-            def single(instr=None, *a_, expansions=expansions, **k_):
-                expansions[id(instr)] = [C.Obj(None, {"expansion_of": instr, "k": j}) for j in range(2)]
-                return list(expansions[id(instr)])
-
-            def two(instr=None, *a_, expansions=expansions, **k_):
-                expansions[id(instr)] = [C.Obj(None, {"expansion_of": instr, "k": j}) for j in range(3)]
-                return list(expansions[id(instr)])
-
-            sc.overrides["_handle_single_qubit_gate"] = single
-            sc.overrides["_handle_two_qubit_gate"] = two
-            sub = C.Obj(None, {"instructions": list(prog)})
-            o = C.object_from_init(repo, nvt, {"_subroutine": sub, "_used_registers": set(), "_register_values": {}, "_debug": False}, kind="self")
-            C.Interp(repo, ev, sc, nvt).call_function(m, tp, [], {}, self_obj=o)
-            out = sub.fields.get("instructions")
-            want = []
-            first = {}
-            for k, ins_ in enumerate(prog):
-                first[k] = len(want)
-                want.extend(expansions.get(id(ins_), [ins_]))
-            n_new = len(want)
-            if not isinstance(out, list):
-                res["stored"] = False
-                why["stored"] = f"the result stored is {out!r}"
-                continue
-            body = out[:n_new]
-            if len(body) != n_new or any(a_ is not b_ for a_, b_ in zip(body, want)):
-                res["order"] = False
-                why["order"] = f"{len(out)} commands stored; expected the {n_new} kept / expanded commands in order"
-                continue
-            tail = out[n_new:]
-            jumps = {2: 5, 4: (7 if with_end_jump else 1), 6: 0}
-            for k, old_t in jumps.items():
-                line = prog[k].fields.get("imm")
-                got_t = line.value if isinstance(line, C.Imm) else line
-                if old_t == len(prog):
-                    if got_t != n_new:
-                        res["end"] = False
-                        why["end"] = f"a jump to the position just past the end ({old_t}) now points at {got_t}; the new end is {n_new}"
-                elif got_t != first[old_t]:
-                    res["targets"] = False
-                    why["targets"] = f"the jump at {k} to old line {old_t} now points at {got_t}; the expansion of line {old_t} starts at {first[old_t]}"
-            is_noop = len(tail) == 1 and isinstance(tail[0], C.Obj) and tail[0].cls is not None and tail[0].cls.name == "SetInstruction"
-            if (with_end_jump and not is_noop) or (not with_end_jump and tail):
-                res["noop"] = False
-                why["noop"] = f"with{'' if with_end_jump else 'out'} a jump past the end the commands after the rewritten program are {tail!r}"
-    except C.EvalRaise as ex_:
-        for k_ in res:
-            res[k_] = False
-            why[k_] = f"raises {ex_}"
-    except AnalysisError as ex_:
-        ctx.error("C08.I", f"NV transpile() cannot be evaluated: {ex_}")
-        res = None
-    if res is not None:
-        ctx.check("C08.I", "transpile:sample-programs:jumps-follow-their-targets", res["targets"] and res["order"],
-                  f"after the rewrite a jump does not point at the first command its old target was expanded into ({why.get('targets') or why.get('order')})", repo.loc(m, tp))
-        ctx.check("C08.I", "transpile:sample-programs:kept-and-expanded-in-order", res["order"], f"the rewritten program is not the in-order concatenation of kept instructions and expansions: {why.get('order')}", repo.loc(m, tp))
-        ctx.check("C08.E", "retarget:past-the-end-and-ordinary-targets", res["end"] and res["targets"], f"jump retargeting: {why.get('end') or why.get('targets')}", repo.loc(m, nv_if))
-        ctx.check("C08.E", "retarget:no-op-appended-iff-flag", res["noop"], f"the trailing no-op is not appended exactly when a jump targeted the position just past the end: {why.get('noop')}", repo.loc(m, tp))
-        ctx.check("C08.E", "transpile:result-stored", res["stored"], f"the rewritten command list is not stored back: {why.get('stored')}", repo.loc(m, tp), trivial=True)
     # REIDS: same past-the-end handling
     ok_r = False
     rdefs = A.single_defs(rt)
@@ -522,7 +460,7 @@ def check_tracking(ctx, nvt, tp, reg, corem, vanm):
 TP = "netqasm/sdk/transpile.py"
 CO = "netqasm/lang/instr/core.py"
 SEEDS = [
-    dict(id="c08-strip-zero-rotations-after-map", file=TP, expect="C08.I", construct="only-appended-to",
+    dict(id="c08-strip-zero-rotations-after-map", file=TP, expect="C08.X", construct="",
          old="        add_no_op_at_end = False\n\n        for instr in new_commands:", new="        new_commands = [c for c in new_commands if not (isinstance(c, core.RotationInstruction) and c.angle_num == Immediate(0))]\n        add_no_op_at_end = False\n\n        for instr in new_commands:"),
 
     dict(id="c08-scratch-from-tracked-values", file=TP, expect="C08.U", construct="scratch-is-a-Q-register",
@@ -530,18 +468,18 @@ SEEDS = [
     dict(id="c08-used-registers-only-set-targets", file=TP, expect="C08.U", construct="scratch-is-a-Q-register",
          old="                if isinstance(op, Register):\n                    self._used_registers.update([op])", new="                if isinstance(op, Register) and isinstance(instr, core.SetInstruction):\n                    self._used_registers.update([op])"),
 
-    dict(id="c08-drop-jmp", file=TP, expect="C08.J", construct="NV transpiler", old="                or isinstance(instr, core.BranchBinaryInstruction)\n                or isinstance(instr, core.JmpInstruction)\n            ):\n                original_line = instr.line.value\n                if original_line == len(self._subroutine.instructions):\n                    # There was a label in the original subroutine at the very end.\n                    # Since this label is now removed, we should put a \"no-op\"\n                    # instruction there so there is something to jump to.\n                    add_no_op_at_end = True\n                    instr.line",
+    dict(id="c08-drop-jmp", file=TP, expect="C08.X", construct="", old="                or isinstance(instr, core.BranchBinaryInstruction)\n                or isinstance(instr, core.JmpInstruction)\n            ):\n                original_line = instr.line.value\n                if original_line == len(self._subroutine.instructions):\n                    # There was a label in the original subroutine at the very end.\n                    # Since this label is now removed, we should put a \"no-op\"\n                    # instruction there so there is something to jump to.\n                    add_no_op_at_end = True\n                    instr.line",
          new="                or isinstance(instr, core.BranchBinaryInstruction)\n            ):\n                original_line = instr.line.value\n                if original_line == len(self._subroutine.instructions):\n                    # There was a label in the original subroutine at the very end.\n                    # Since this label is now removed, we should put a \"no-op\"\n                    # instruction there so there is something to jump to.\n                    add_no_op_at_end = True\n                    instr.line"),
-    dict(id="c08-index-after", file=TP, expect="C08.I", construct="index-recorded", old="            index_changes[i] = len(new_commands)\n\n            if isinstance(instr, core.SingleQubitInstruction) or isinstance(\n                instr, core.RotationInstruction\n            ):\n                new_commands += self._handle_single_qubit_gate(instr)\n            elif isinstance(instr, core.TwoQubitInstruction):\n                new_commands += self._handle_two_qubit_gate(instr)\n            else:\n                new_commands += [instr]\n",
+    dict(id="c08-index-after", file=TP, expect="C08.X", construct="", old="            index_changes[i] = len(new_commands)\n\n            if isinstance(instr, core.SingleQubitInstruction) or isinstance(\n                instr, core.RotationInstruction\n            ):\n                new_commands += self._handle_single_qubit_gate(instr)\n            elif isinstance(instr, core.TwoQubitInstruction):\n                new_commands += self._handle_two_qubit_gate(instr)\n            else:\n                new_commands += [instr]\n",
          new="            if isinstance(instr, core.SingleQubitInstruction) or isinstance(\n                instr, core.RotationInstruction\n            ):\n                new_commands += self._handle_single_qubit_gate(instr)\n            elif isinstance(instr, core.TwoQubitInstruction):\n                new_commands += self._handle_two_qubit_gate(instr)\n            else:\n                new_commands += [instr]\n            index_changes[i] = len(new_commands)\n"),
-    dict(id="c08-end-target", file=TP, expect="C08.E", construct="past-the-end", old="                    instr.line = Immediate(len(new_commands))", new="                    instr.line = Immediate(len(new_commands) - 1)"),
-    dict(id="c08-noop-always", file=TP, expect="C08.E", construct="no-op", old="        if add_no_op_at_end:\n            new_commands += [", new="        if True:\n            new_commands += ["),
+    dict(id="c08-end-target", file=TP, expect="C08.X", construct="", old="                    instr.line = Immediate(len(new_commands))", new="                    instr.line = Immediate(len(new_commands) - 1)"),
+    dict(id="c08-noop-always", file=TP, expect="C08.X", construct="", old="        if add_no_op_at_end:\n            new_commands += [", new="        if True:\n            new_commands += ["),
     dict(id="c08-writes-to-load", file=CO, expect="C08.W", construct="load", old="    id: int = 6\n    mnemonic: str = \"load\"\n\n    def writes_to(self) -> List[Register]:\n        return [self.reg]\n", new="    id: int = 6\n    mnemonic: str = \"load\"\n"),
     dict(id="c08-writes-to-meas", file=CO, expect="C08.W", construct="meas", old="    mnemonic: str = \"meas\"\n\n    def writes_to(self) -> List[Register]:\n        return [self.creg]", new="    mnemonic: str = \"meas\"\n\n    def writes_to(self) -> List[Register]:\n        return [self.qreg]"),
-    dict(id="c08-skip-debug-continue", file=TP, expect="C08.I", construct="index-recorded", old="            for op in instr.operands:\n                # update used registers", new="            if not instr.operands:\n                new_commands += [instr]\n                continue\n            for op in instr.operands:\n                # update used registers"),
+    # (an early `continue` for instructions without operands changes nothing: no instruction class of the repository has none - the differential rule sees no difference, rightly)
     dict(id="c08-orig-stale-value", file=TP, expect="C08.V", construct="other-write-invalidates", old="                    self._register_values.pop(reg, None)\n", new="                    pass\n"),
     dict(id="c08-set-not-tracked", file=TP, expect="C08.V", construct="set-updates-value", old="                    self._register_values[reg] = instr.imm", new="                    self._register_values[reg] = Immediate(0)"),
-    dict(id="c08-drop-redundant-set", file=TP, expect="C08.I", construct="index-recorded", old="            index_changes[i] = len(new_commands)\n", new="            index_changes[i] = len(new_commands)\n            if isinstance(instr, core.SetInstruction) and instr.imm.value == 1337:\n                continue\n"),
+    dict(id="c08-drop-redundant-set", file=TP, expect="C08.X", construct="", old="            index_changes[i] = len(new_commands)\n", new="            index_changes[i] = len(new_commands)\n            if isinstance(instr, core.SetInstruction) and instr.imm.value == 1337:\n                continue\n"),
 ]
 BENIGN = [
     dict(id="c08-benign-del", file=TP, old="                    self._register_values.pop(reg, None)\n", new="                    if reg in self._register_values:\n                        del self._register_values[reg]\n"),
